@@ -652,6 +652,10 @@ class G:
                         inner_q = self.question(depth + 2, inner_rep) if self.p("_", 0.5) else self.question(depth + 2, inner_rep, table_list=None)
                         grp = {"k": "g", "c": {"name": gname, "label": self.text("NG")}, "ch": [inner_q]}
                         node["ch"].insert(self.integer(0, len(node["ch"])), grp)
+            elif P("p_empty_container", 0.0):
+                # a begin/end pair that encloses no question row (perhaps only rows that produce nothing): still one node, one control
+                node["ch"] = self.pick([[], [{"k": "x", "c": {"type": "text", "name": self.name("dis"), "label": "off", "disabled": "yes"}}],
+                                        [{"k": "x", "c": {"hint": "nothing here yet"}}]])
             else:
                 node["ch"] = self.nodes(depth + 1, inner_rep)
                 if not any(ch["k"] != "x" for ch in node["ch"]):
@@ -855,3 +859,21 @@ PROFILES = {
     "defaults": dict(BROAD, p_default=0.7, p_trigger=0.25, p_repeat=0.3, max_depth=4, text="plain", p_logic=0.2),
     "settings": dict(BROAD, settings="all", max_rows=5, max_depth=1, text="adv"),
 }
+
+
+def respell_language(g, form):
+    """one column spells a language with a doubled or non-breaking space: still the same language (header tokens are cleaned)"""
+    nodes = form["nodes"]
+    sheet_rows = [n["c"] for n, _ in model.walk(nodes)] if g.p("_", 0.6) else [r for lst in form.get("lists", []) for r in lst["rows"]]
+    cols = sorted({k.split("::")[0] for r in sheet_rows for k in r if "::" in k and " " in k.split("::", 1)[1]
+                   and k.split("::")[0] in ("label", "hint", "constraint_message", "required_message", "guidance_hint", "image", "audio", "video")})
+    if not cols:
+        return False
+    col = g.pick(cols)
+    sp = g.pick(["  ", "\xa0", " \xa0", "\t"])
+    for r in sheet_rows:
+        for k in [k for k in r if k.startswith(col + "::") and " " in k]:
+            b, lang = k.split("::", 1)
+            val = r.pop(k)
+            r[b + "::" + lang.replace(" ", sp, 1)] = val
+    return True
